@@ -242,12 +242,12 @@ Definition strnum (onum : Z) (s : list Z) : Z :=
 
 Definition bool_list_eqb := list_eqb Bool.eqb.
 
-(* finding classes:
-   1 float32 payload (named float32 types, *float32): float64() has no case for it -> Go panic,
-     and bool() takes NaN for true
+(* finding classes (open):
    2 ToInteger of uint/uint64 goes through float64: rounded above 2^53, saturated from 2^63-512
    3 scripts see the exact integer text of an int64/uint64 beyond 2^53, not the Number's text
-   4 MarshalJSON of NaN / +-Infinity is an error instead of null *)
+   6 Export skips holes
+   (1 float32 payload, 4 MarshalJSON of non-finite numbers, 5 Export panic on nested arrays and
+   7 IsNaN letting an exception escape are repaired: model = spec there, class 0) *)
 Definition verdict_scalar (c : case) : Z * Z :=
   match c with
   | CExport path g obs =>
@@ -257,14 +257,14 @@ Definition verdict_scalar (c : case) : Z * Z :=
             (OVal (canon (export v))) (OVal (canon g)) 0
   | CToFloat path g onum obs =>
       judge (ob_eqb Z.eqb) obs (of_res (to_float (strnum onum) (toValue (is_refl path) g)))
-            (OVal (spec_to_float (strnum onum) g)) 1
+            (OVal (spec_to_float (strnum onum) g)) 0
   | CToInt path g onum obs =>
       judge (ob_eqb Z.eqb) obs (of_res (to_integer (strnum onum) (toValue (is_refl path) g)))
             (OVal (spec_to_integer (strnum onum) g))
-            (match g with GF32 _ => 1 | _ => 2 end)
+            2
   | CToBool path g obs =>
       judge (ob_eqb Bool.eqb) obs (OVal (to_boolean (toValue (is_refl path) g)))
-            (OVal (spec_to_boolean g)) 1
+            (OVal (spec_to_boolean g)) 0
   | CToStr path g ostr obs =>
       judge (ob_eqb zlist_eqb) obs (OVal (to_string (float_text ostr) (toValue (is_refl path) g)))
             (OVal (spec_to_string (float_text ostr) g)) 0
@@ -273,7 +273,7 @@ Definition verdict_scalar (c : case) : Z * Z :=
                | Some t => OVal t | None => OErr 8 end in
       let s := match spec_marshal_json (float_text ojson) (fun _ => ojson) g with
                | Some t => OVal t | None => OErr 8 end in
-      judge (ob_eqb zlist_eqb) (match obs with OErr _ => OErr 8 | o => o end) m s 4
+      judge (ob_eqb zlist_eqb) (match obs with OErr _ => OErr 8 | o => o end) m s 0
   | CPred path g onum obs =>
       let v := toValue (is_refl path) g in
       let t := spec_typeof g in
@@ -309,7 +309,7 @@ Definition verdict_scalar (c : case) : Z * Z :=
       judge eqb (ty, (eq, sign, bo), sx)
             (OVal (typeof v), (m_eq, m_sign, OVal (to_boolean v)), m_sx)
             (OVal (spec_typeof g), (s_eq, OVal true, OVal (spec_to_boolean g)), s_sx)
-            (match g with GF32 _ => 1 | _ => 3 end)
+            3
   | _ => declined
   end.
 
@@ -338,21 +338,19 @@ Fixpoint gv_eqb (a b : gv) : bool :=
   | _, _ => false
   end.
 
-(* finding classes 5: Export panics (reflect.Set) on nested arrays whose kind triples agree
-   while their types differ; 6: Export skips holes, so later elements change index *)
+(* finding class 6: Export skips holes, so later elements change index *)
 Definition verdict_tree (v : jv) (obs : ob gv) : Z * Z :=
   let m := export_m v in
-  judge (ob_eqb gv_eqb) obs (of_res m) (OVal (export_s v))
-        (match m with Panic => 5 | Ok _ => 6 end).
+  judge (ob_eqb gv_eqb) obs (of_res m) (OVal (export_s v)) 6.
 
 Definition zll_eqb := list_eqb zlist_eqb.
 
-(* class 7: Value.IsNaN has no catchPanic: a script exception thrown by the conversion escapes as a Go panic *)
+(* Value.IsNaN runs the conversion under catchPanic: when it throws, no NaN was obtained and the answer is false *)
 Definition verdict_jsval ty (jnum : ob Z) (jstr : ob (list Z)) (jbool jisnan : ob bool)
            (preds : list bool) (gnan : ob bool) (gnum gint : ob Z) (gstr : ob (list Z)) (gbool : ob bool) : Z * Z :=
   let exp_preds := [negb (ty =? 0); ty =? 0; ty =? 1; ty <? 5; ty =? 2; ty =? 3; ty =? 4; 5 <=? ty; ty =? 6; ty <? 5] in
-  let m_nan := match jisnan with OVal b => OVal b | _ => OPanic end in
-  let s_nan := match jisnan with OVal b => OVal b | _ => OVal true end in
+  let m_nan := match jisnan with OVal b => OVal b | _ => OVal false end in
+  let s_nan := m_nan in
   let e_int := match jnum with OVal b => OVal (int64_of_bits b) | OErr c => OErr c | OPanic => OPanic end in
   let eqb := fun a b : list bool * ob bool * (ob Z * ob Z) * (ob (list Z) * ob bool) =>
                let '(p1, n1, (f1, i1), (s1, b1)) := a in
@@ -361,7 +359,7 @@ Definition verdict_jsval ty (jnum : ob Z) (jstr : ob (list Z)) (jbool jisnan : o
                ob_eqb zlist_eqb s1 s2 && ob_eqb Bool.eqb b1 b2 in
   judge eqb (preds, gnan, (gnum, gint), (gstr, gbool))
         (exp_preds, m_nan, (jnum, e_int), (jstr, jbool))
-        (exp_preds, s_nan, (jnum, e_int), (jstr, jbool)) 7.
+        (exp_preds, s_nan, (jnum, e_int), (jstr, jbool)) 0.
 
 Definition verdict_call (args : list gscalar) (obs_api obs_lang : ob (list (list Z))) : Z * Z :=
   let this_tag := match obs_lang with OVal (t :: _) => t | _ => [] end in
@@ -395,7 +393,7 @@ Definition verdict (c : case) : Z * Z :=
                ob_eqb Bool.eqb (fst (fst a)) (fst (fst b)) && ob_eqb Z.eqb (snd (fst a)) (snd (fst b)) &&
                ob_eqb gv_eqb (snd a) (snd b))
             (ident, ty, exp) (OVal true, OVal 5, of_res m) (OVal true, OVal 5, OVal (export_s data))
-            (match m with Panic => 5 | Ok _ => 6 end)
+            6
   | CDepthHist _ ops api lang =>
       let e := depth_expected ops in
       judge (fun a b => zlist_eqb (fst a) (fst b) && zlist_eqb (snd a) (snd b)) (api, lang) (e, e) (e, e) 0
